@@ -110,3 +110,39 @@ fn c18_pkg_length_2_pow_28_refused() {
         }
     }
 }
+
+// ---------------------------------------------------------------------------------------
+// table helpers
+fn le32_at(b: &[u8], o: usize) -> u32 { u32::from_le_bytes([b[o], b[o + 1], b[o + 2], b[o + 3]]) }
+fn le16_at(b: &[u8], o: usize) -> u16 { u16::from_le_bytes([b[o], b[o + 1]]) }
+fn bsum(b: &[u8]) -> u8 { b.iter().fold(0u8, |a, x| a.wrapping_add(*x)) }
+/// C01 + C02 oracle for a table image
+fn check_table(name: &str, b: &[u8]) {
+    assert_eq!(bsum(b), 0, "{}: image does not sum to 0 (sum {})", name, bsum(b));
+    assert_eq!(le32_at(b, 4) as usize, b.len(), "{}: Length field {} but {} bytes emitted", name, le32_at(b, 4), b.len());
+}
+/// C03 oracle: walk entries with a 1-byte type and 1-byte length (MADT/SRAT/PPTT style)
+fn walk_tl8(name: &str, b: &[u8], first: usize, expect_types: &[u8]) {
+    let mut o = first;
+    let mut seen = Vec::new();
+    while o < b.len() {
+        assert!(o + 2 <= b.len(), "{}: truncated entry header at {}", name, o);
+        let l = b[o + 1] as usize;
+        assert!(l >= 2 && o + l <= b.len(), "{}: entry at {} (type {}, length {}) runs past the end of the image ({})", name, o, b[o], l, b.len());
+        seen.push(b[o]);
+        o += l;
+    }
+    assert_eq!(o, b.len(), "{}: walk did not land on the end", name);
+    assert_eq!(seen, expect_types, "{}: entry types", name);
+}
+
+#[test]
+fn c03_srat_rintc_affinity_is_self_describing() {
+    use acpi_tables::srat::*;
+    let mut t = SRAT::new(*b"FOOBAR", *b"DECAFCOF", 1);
+    t.add_rintc_affinity(RintcAffinity::new([1, 2, 3, 4], 7).enabled());
+    t.add_memory_affinity(MemoryAffinity::new(1, 0x1000, 0x2000).enabled());
+    let b = ser(&t);
+    check_table("SRAT", &b);
+    walk_tl8("SRAT", &b, 48, &[7, 1]);
+}
